@@ -1092,6 +1092,11 @@ func evaluate(r *ev.Run, c *caseResult) {
 	for i, t := range sc.Txs {
 		refIdx[t.Ref] = i
 	}
+	payloadCount := map[string]int{}
+	for _, t := range sc.Txs {
+		payloadCount[string(t.Payload)]++
+	}
+	uniquePayload := func(i int) bool { return payloadCount[string(sc.Txs[i].Payload)] == 1 }
 	witness := func(ref string, sub string) map[string]any {
 		var ls []string
 		for _, l := range c.lines {
@@ -1106,7 +1111,7 @@ func evaluate(r *ev.Run, c *caseResult) {
 		w := map[string]any{"case": c.name, "crash_plans": sc.Phases, "phase_ends": c.phaseEnd, "continue": sc.Continue, "ledger": ls, "subscribers": sc.Subs}
 		if i, ok := refIdx[ref]; ok {
 			t := sc.Txs[i]
-			w["tx"] = map[string]any{"index": i, "ref": ref, "payload_type": t.PType, "private": t.Private, "mode": t.Mode, "in_dag": fin.dag[ref], "payload_present": fin.payload[ref]}
+			w["tx"] = map[string]any{"index": i, "ref": ref, "payload_type": t.PType, "private": t.Private, "mode": t.Mode, "in_dag": fin.dag[ref], "payload_hash_in_store": fin.payload[ref], "payload_bytes_shared_with_other_tx": !uniquePayload(i)}
 			scr := map[string]string{}
 			for k, v := range sc.Scripts {
 				if strings.Contains(k, "|"+strconv.Itoa(i)+"|") {
@@ -1144,6 +1149,8 @@ func evaluate(r *ev.Run, c *caseResult) {
 	completions := map[string][]line{} // sub|ref: finished hook / finished-observed
 	wpBegins := map[string][]line{}    // ref
 	wpCommitted := map[string]int{}    // ref -> committed WritePayload calls
+	wpDoneAt := map[string][]line{}    // ref -> wp-committed / wp-ok lines
+	killOf := map[int]string{}         // phase -> kill line
 	addBegins := map[string][]line{}   // ref ; f[3] = with payload
 	inRun := ""
 	runDoneSeq := map[string]int{} // phase|sub -> ledger position of run-done
@@ -1189,6 +1196,11 @@ func evaluate(r *ev.Run, c *caseResult) {
 			wpBegins[f[1]] = append(wpBegins[f[1]], l)
 		case "wp-committed":
 			wpCommitted[f[1]]++
+			wpDoneAt[f[1]] = append(wpDoneAt[f[1]], l)
+		case "wp-ok":
+			wpDoneAt[f[1]] = append(wpDoneAt[f[1]], l)
+		case "kill":
+			killOf[l.phase] = strings.Join(f[1:], " ")
 		case "add-begin":
 			addBegins[f[1]] = append(addBegins[f[1]], l)
 		case "phase":
@@ -1201,10 +1213,62 @@ func evaluate(r *ev.Run, c *caseResult) {
 
 	// a second payload write for a transaction makes a new event: the pairs it touches are outside the property text
 	rewritten := map[string]bool{}
+	wpAmbiguous := map[string][]int{} // ref -> phases that died while a WritePayload for it was under way (shared payload bytes only)
 	for ref, n := range wpCommitted {
 		if i, ok := refIdx[ref]; ok && (n > 1 || sc.Txs[i].Mode == "with") {
 			rewritten[ref] = true
 		}
+	}
+	// payload bytes shared with another transaction: the store cannot tell whether a WritePayload that was cut off by a crash had
+	// committed, the worker repeats it then. Unless the crash was inside that very write (not committed for sure) this may have been a second write.
+	for ref, begins := range wpBegins {
+		i, ok := refIdx[ref]
+		if !ok || uniquePayload(i) {
+			continue
+		}
+		for j, b := range begins {
+			done := false
+			for _, d := range wpDoneAt[ref] {
+				if d.phase == b.phase && d.seq > b.seq {
+					done = true
+				}
+			}
+			if _, killed := killOf[b.phase]; !done && killed && killOf[b.phase] != "wp-inwrite "+ref {
+				if j < len(begins)-1 {
+					rewritten[ref] = true
+				}
+				wpAmbiguous[ref] = append(wpAmbiguous[ref], b.phase)
+			}
+		}
+	}
+	// the payload event of a transaction exists when the transaction was admitted together with its payload or a WritePayload for it committed
+	// (the payload store itself is keyed by the payload hash and only says so when no other transaction has the same bytes)
+	payloadWrittenBefore := func(ref string, phase int) bool {
+		i, ok := refIdx[ref]
+		if !ok {
+			return false
+		}
+		if sc.Txs[i].Mode == "with" {
+			return phases[phase].startDag[ref]
+		}
+		for _, d := range wpDoneAt[ref] {
+			if d.phase < phase {
+				return true
+			}
+		}
+		for _, p := range wpAmbiguous[ref] {
+			if p < phase {
+				return true
+			}
+		}
+		return uniquePayload(i) && phases[phase].startPayload[ref]
+	}
+	payloadAdmitted := func(ref string) bool {
+		i, ok := refIdx[ref]
+		if !ok || !fin.dag[ref] {
+			return false
+		}
+		return sc.Txs[i].Mode == "with" || len(wpDoneAt[ref]) > 0 || uniquePayload(i) && fin.payload[ref]
 	}
 
 	deliveries, retries := 0, 0
@@ -1230,7 +1294,7 @@ func evaluate(r *ev.Run, c *caseResult) {
 				break
 			}
 			if typ == dag.PayloadEventType {
-				written := ph.startPayload[ref]
+				written := payloadWrittenBefore(ref, d.phase)
 				for _, a := range addBegins[ref] {
 					if a.phase == d.phase && a.seq < d.seq && a.f[3] == "true" {
 						written = true
@@ -1241,7 +1305,7 @@ func evaluate(r *ev.Run, c *caseResult) {
 						written = true
 					}
 				}
-				if !written || !fin.payload[ref] {
+				if !written || !payloadAdmitted(ref) && len(wpAmbiguous[ref]) == 0 {
 					viol("delivered-not-admitted/payload", fmt.Sprintf("subscriber %s received a payload event for %s whose payload was not written", sub, ref), ref, sub)
 					break
 				}
@@ -1271,7 +1335,7 @@ func evaluate(r *ev.Run, c *caseResult) {
 			}
 			if s.Filter == "any" {
 				// one shelf key for the transaction event and the payload event of the same transaction: outside the text
-				if fin.payload[ref] {
+				if payloadAdmitted(ref) {
 					r.Unspecified("subscriber-selects-both-event-types-of-one-tx")
 				}
 				// whatever the type: something about an admitted transaction was delivered, or is still on the shelf
@@ -1285,8 +1349,11 @@ func evaluate(r *ev.Run, c *caseResult) {
 			if strings.HasPrefix(s.Filter, "payload") {
 				typ = dag.PayloadEventType
 			}
-			if !selects(s.Filter, t, typ) || typ == dag.PayloadEventType && !fin.payload[ref] {
+			if !selects(s.Filter, t, typ) || typ == dag.PayloadEventType && !payloadAdmitted(ref) {
 				continue
+			}
+			if typ == dag.PayloadEventType && !uniquePayload(i) && t.Mode != "with" {
+				r.Count("payload_events_written_later_for_shared_payload_bytes", 1)
 			}
 			k := s.Name + "|" + ref + "|" + typ
 			ds := recvs[k]
@@ -1505,7 +1572,7 @@ func TestCheck(t *testing.T) {
 	r := ev.Start(t, "C14", "fault_enumeration")
 	defer r.Finish()
 	r.SetRule("cases = seeded scenario (5-14 transactions, thorough up to 30: public/private, DID/VC/other payloads, payload with the Add, written later, written by the private receiver, never, " +
-		"written twice; 6-7 subscribers with scripted receivers) x every crash point of {none, inside the admission write, after commit before notify, inside/after the WritePayload write, " +
+		"written twice; tx 3 and some other late payloads repeat the payload bytes of an earlier transaction; 6-7 subscribers with scripted receivers) x every crash point of {none, inside the admission write, after commit before notify, inside/after the WritePayload write, " +
 		"receiver returned true before completion marking, receiver returned failure before recording, failure recorded, during back-off, after completion marking} " +
 		"(+ per scenario one double crash: second SIGKILL during the start-up replay). Each case = 2-3 worker processes on one data directory; the oracle runs over the merged ledgers and the final store. " +
 		"A case is non-trivial when its crash point was reached, the final DAG is not empty and persistent subscribers received deliveries; distinct by (crash points, crash target, scenario).")
